@@ -150,6 +150,10 @@ class CallsDriver:
     def _on_cb(self, v, c):
         kind, sh, frm = decode_value(v, c)
         self.fired[c].append({'k': 'value', 'kind': kind, 'sh': sh, 'from': frm})
+        if getattr(self, 'lose_in_callback', None) == c:
+            # the caller's reaction to this result is to tear the connection down, and the transport reports the loss at once
+            self.lose_in_callback = None
+            self.do_Lose()
 
     def _on_eb(self, f, c):
         e = f.value
@@ -429,6 +433,29 @@ def run(tier, seed):
                 chk.violation('a reply delivered from inside transport.write (shape %s, call %r): impl differs from model in %s' % (
                     sh, k, ','.join(sorted(set(d[0] for d in dif)))), dict(kind='spec->code sync reply', module='c08', shape=sh, cfg=k,
                                                                            diff=[(a, repr(b), repr(c)) for a, b, c in dif]))
+    # ... and a completion callback that closes the connection, on a transport that reports the loss synchronously: the
+    # model's Return ; Lose, as one step - the other outstanding call fails with the loss, the completed one is not touched
+    for k2 in ({'dl': False, 'ret': 'nocheck', 'nr': False}, {'dl': True, 'ret': 'nocheck', 'nr': False}):
+        k1 = {'dl': False, 'ret': 'nocheck', 'nr': False}
+        acts = [('Issue', (1, core_freeze(k1))), ('Issue', (2, core_freeze(k2))), ('Return', (1, 'one')), ('Lose', ())]
+        try:
+            ids = walk(gb, acts)
+        except KeyError:
+            continue
+        drv = CallsDriver([1, 2])
+        try:
+            drv.do_Issue(1, k1)
+            drv.do_Issue(2, k2)
+            drv.lose_in_callback = 1
+            drv.do_Return(1, 'one')
+            dif = core.diff_states(gb.nodes[ids[-1]], drv.project())
+        except Exception:
+            dif = [('exception', 'none', core.traceback_str()[-300:])]
+        nsync += 1
+        if dif:
+            chk.violation('a completion callback that closes the connection (loss reported synchronously): impl differs from model in %s' % (
+                ','.join(sorted(set(d[0] for d in dif)))), dict(kind='spec->code lose in callback', module='c08', cfg=k2,
+                                                                  diff=[(a, repr(b), repr(c)) for a, b, c in dif]))
     chk.traces += nsync
     chk.notes['synchronous_replies'] = nsync
     # 3. code -> spec: random executions with the full alphabet, larger than the model constants
